@@ -1,5 +1,11 @@
 import ServlinVerif.Props.C17
+import ServlinVerif.Props.C17Line
 open Servlin.C17
 #print axioms C17_string_roundtrip
 #print axioms C17_no_breakout
 #print axioms C17_legacy_invalid
+#print axioms C17_line
+#print axioms members_parse
+#print axioms valTok_int
+#print axioms valTok_float
+#print axioms writeJsonl_eq
